@@ -9,3 +9,4 @@ for p in $(/venv/bin/python -c "import json; print(' '.join(c['property_id'] for
   echo "$p rc=$rc t=$((e-s))s viol=$(echo "$out" | grep -c '^VIOLATION') known=$(echo "$out" | grep -c '^KNOWN-FINDING')"
   echo "$out" | grep '^VIOLATION' | cut -c1-300
 done
+/venv/bin/python -c "import sys; sys.path.insert(0,\"/verif/tools\"); import common; h=common.forbidden_hits(None); print(\"GLOBAL-GATE:\", h if h else \"clean (no Admitted/admit/Axiom/Parameter/Conjecture/disabled checks under theories/)\")"
